@@ -116,10 +116,16 @@ def parse_transition(tr, pidmap):
     return d
 
 
-def merge_checker_view(trace, cex, nreplay, pidmap):
+def merge_checker_view(trace, cex, nreplay, pidmap, status=()):
     """Attach to the j-th handle line of an application trace the checker's view of that step (the first nreplay steps were
-    replayed in one batch and carry none)."""
+    replayed in one batch and carry none). status = [(p, enabled aids, disabled aids)]: the actors the checker found enabled /
+    disabled after the p-th step of this process (hook H4, RemoteApp::get_actors_status), attached to that handle line as
+    cen / cdis (the state they describe is the one reached when the application has settled after that step)."""
     hs = [r for r in trace if r.get("e") == "handle"]
+    for p, en, dis in status:
+        if 1 <= p <= len(hs):
+            hs[p - 1]["cen"] = sorted(pidmap.get(a, -a) for a in en)
+            hs[p - 1]["cdis"] = sorted(pidmap.get(a, -a) for a in dis)
     for j, r in enumerate(hs):
         k = j - nreplay
         if k < 0:
@@ -151,8 +157,17 @@ def run_simgrid_mc(ctx, idx, prog, reduction="odpor", extra_cfg=(), timeout=120,
     env = vlib.sg_env({"VERIF_KTRACE": os.path.join(d, "t_%p.ndjson")})
     cmd = [vlib.SIMGRID_MC, drv, ptxt, "--cfg=model-check/reduction:" + reduction, "--log=root.thres:info",
            "--cfg=debug/stacktrace:none", "--log=mc_ct.thres:critical"] + list(extra_cfg)
-    rc, out, err = vlib.sh(cmd, timeout=timeout, env=env)
-    text = out + err
+    for attempt in range(4):
+        rc, out, err = vlib.sh(cmd, timeout=timeout, env=env)
+        text = out + err
+        # the abstract socket of the checker is named after its pid: an orphan application of an earlier checker that had the
+        # same pid may still hold it (infrastructure, nothing to do with the program): try again with another pid
+        if "Cannot bind the master socket" not in text:
+            break
+        for f in glob.glob(os.path.join(d, "t_*.ndjson")):
+            os.unlink(f)
+    else:
+        raise vlib.InfraError("simgrid-mc could not bind its master socket 4 times in a row: " + text[-300:])
     if "error while loading shared libraries" in text:
         raise vlib.InfraError("simgrid-mc could not start (library being rebuilt?): " + text[-300:])
     files = sorted(glob.glob(os.path.join(d, "t_*.ndjson")), key=lambda f: int(re.search(r"t_(\d+)", f).group(1)))
@@ -173,15 +188,26 @@ def run_simgrid_mc(ctx, idx, prog, reduction="odpor", extra_cfg=(), timeout=120,
     byp = {}
     for f, rs in zip(files, recs):
         byp[int(re.search(r"t_(\d+)", f).group(1))] = rs
-    cexec, creplay = {}, {}
+    cexec, creplay, cstatus = {}, {}, {}
+    pos, owed = {}, {}      # per application process: steps made so far; replayed steps whose status is still to come
     checker_pids = set()
     for pid, rs in byp.items():
         for r in rs:
             if r.get("e") == "cexec":
                 cexec.setdefault(r["app"], []).append(r)
+                pos[r["app"]] = pos.get(r["app"], 0) + 1
+                owed[r["app"]] = 0
                 checker_pids.add(pid)
             elif r.get("e") == "creplay":
                 creplay[r["app"]] = creplay.get(r["app"], 0) + r["n"]
+                pos[r["app"]] = pos.get(r["app"], 0) + r["n"] - r.get("ns", 0)
+                owed[r["app"]] = r.get("ns", 0)
+                checker_pids.add(pid)
+            elif r.get("e") == "cstatus":
+                if owed.get(r["app"], 0) > 0:
+                    owed[r["app"]] -= 1
+                    pos[r["app"]] = pos.get(r["app"], 0) + 1
+                cstatus.setdefault(r["app"], []).append((pos.get(r["app"], 0), r["en"], r["dis"]))
                 checker_pids.add(pid)
     pidmap = {}
     for rs in byp.values():
@@ -192,7 +218,7 @@ def run_simgrid_mc(ctx, idx, prog, reduction="odpor", extra_cfg=(), timeout=120,
     def own(pid):
         rs = [dict(r) for r in byp[pid] if r.get("e") != "forked"]
         if with_checker_view:
-            merge_checker_view(rs, cexec.get(pid, []), creplay.get(pid, 0), pidmap)
+            merge_checker_view(rs, cexec.get(pid, []), creplay.get(pid, 0), pidmap, cstatus.get(pid, []))
         return rs
     owned = {pid: own(pid) for pid in byp if pid not in checker_pids}
     memo = {}
@@ -211,12 +237,20 @@ def run_simgrid_mc(ctx, idx, prog, reduction="odpor", extra_cfg=(), timeout=120,
 
     def clean(rs):
         o = []
+        held = None         # the checker's enabled / disabled sets: checked once the application has settled after the step
         for r in rs:
             if r.get("e") == "born":
                 continue
+            if r.get("e") == "handle":
+                if held is not None:
+                    o.append(held)
+                held = {"e": "cstatus", "en": r["cen"], "dis": r["cdis"]} if "cen" in r else None
+                r = {k: v for k, v in r.items() if k not in ("cen", "cdis")}
             if r.get("e") in ("handle", "answer"):
                 r = dict(r, a=pidmap.get(r["a"], -r["a"]))
             o.append(r)
+        if held is not None:
+            o.append(held)
         return o
     parents = {rs[0]["from"] for rs in byp.values() if rs and rs[0].get("e") == "forked"}
     roots = [pid for pid in owned if not (byp[pid] and byp[pid][0].get("e") == "forked")]
@@ -225,6 +259,9 @@ def run_simgrid_mc(ctx, idx, prog, reduction="odpor", extra_cfg=(), timeout=120,
         if pid in roots and pid in parents:
             continue          # the initial process: it only runs the application up to its first simcalls
         t = clean(full(pid))
+        # a checker killed by the wall-clock limit leaves applications that die on the closed socket: not part of the execution
+        while rc == 124 and t and t[-1].get("e") == "end" and t[-1].get("how") in ("exception", "signal", "abort"):
+            t.pop()
         if t:
             traces.append(t)
     res = {"rc": rc, "out": text, "traces": traces, "deadlock": "DEADLOCK DETECTED" in text,
@@ -303,6 +340,10 @@ def regression_progs():
         new_prog(rec=[False, False], ncv=1, cap=[0], timed=False, gran="mc",
                  actors=[[op("lock", 2), op("rel", 1), op("cvwait", 1, 2), op("trylock", 1), op("unlock", 2)],
                          [op("acq", 1), op("lock", 2), op("sig", 1), op("unlock", 2), op("lock", 2), op("trylock", 1), op("unlock", 2)]]),
+        # a trylock racing with the CONDVAR_ASYNC_LOCK of the owner (ODPOR / SDPOR used not to reverse that race: fixed)
+        new_prog(rec=[False], ncv=1, timed=False, gran="mc",
+                 actors=[[op("lock", 1), op("unlock", 1), op("trylock", 1, 1), op("unlock", 1)],
+                         [op("lock", 1), op("cvwaitfor", 1, 1, 1), op("unlock", 1)]]),
     ]
 
 
